@@ -260,6 +260,13 @@ def assigned_names(stmts):
     return names, mutated, lenmut
 
 
+class _Nested:
+    """a function defined inside the function under verification (closure over the enclosing locals)"""
+
+    def __init__(self, node, env):
+        self.node, self.env = node, env
+
+
 class _LiveList:
     def __init__(self, plist):
         self.plist = plist
@@ -449,7 +456,9 @@ class Interp:
                 env[nm] = ModRef(full)
 
     def st_FunctionDef(self, node, env):
-        raise Unsupported("nested function definition")
+        if node.decorator_list:
+            raise Unsupported("decorated nested function definition")
+        env[node.name] = _Nested(node, env)
 
     def st_Delete(self, node, env):
         for t in node.targets:
@@ -1330,6 +1339,18 @@ class Interp:
                          fv.hooks, fv.ftext)
             a = ([fv.self_obj] if fv.self_obj is not None else []) + list(args)
             return sub.run_function(fv.ftext, a, kwargs)
+        if isinstance(fv, _Nested):
+            env = dict(fv.env)
+            env[fv.node.name] = fv
+            env.update(self.bind(fv.node, list(args), dict(kwargs)))
+            body = fv.node.body
+            if body and isinstance(body[0], ast.Expr) and isinstance(body[0].value, ast.Constant) and isinstance(body[0].value.value, str):
+                body = body[1:]
+            try:
+                self.exec_block(body, env)
+            except _Return as r:
+                return r.value
+            return None
         if isinstance(fv, PLambda):
             env = dict(fv.env)
             env.update(self.bind(fv.node, list(args), dict(kwargs)))
